@@ -73,9 +73,9 @@ theorem C04_ctl_restore_opens_record (s : CS) (sc : Cpu) (sp : Byte) (rest : Lis
 
 /-! Non-vacuity: Z80, `SAVE`, PIC16C84 (granularity 2), data, `RESTORE`, data directly behind it; nested `SAVE`s with a
 segment change. -/
-def exZ80 : Cpu := ⟨1, 0x51, [(1, 1)]⟩
-def exPic : Cpu := ⟨2, 0x70, [(1, 2)]⟩
-def ex51 : Cpu := ⟨3, 0x31, [(1, 1), (2, 1), (4, 1)]⟩
+def exZ80 : Cpu := { id := 1, hdr := 0x51, grans := [(1, 1)] }
+def exPic : Cpu := { id := 2, hdr := 0x70, grans := [(1, 2)], lgrans := [(1, 2)] }
+def ex51 : Cpu := { id := 3, hdr := 0x31, grans := [(1, 1), (2, 1), (4, 1)] }
 def exCtls : List Ctl :=
   [.cpu exZ80, .org 0x100, .data [0x11, 0x22, 0x33], .save, .cpu exPic, .org 16, .data [0x34, 0x12, 0xbc, 0x2a],
    .restore, .data [0xa5, 0x5a],
